@@ -183,23 +183,40 @@ Proof.
   - intros H. destruct (lk k'); cbn [sget fst]; rewrite E; auto.
 Qed.
 
+Lemma fail_keys_other failed : forall st k, ~ In k failed -> kget (fail_keys st failed) k = kget st k.
+Proof.
+  induction failed as [|f failed IH]; intros st k Hn; cbn [fail_keys fold_left]; auto.
+  change (kget (fail_keys (match kget st f with Some c => put st f (failed_promise c) | None => st end) failed) k = kget st k).
+  rewrite IH by (intros H; apply Hn; right; auto).
+  destruct (kget st f); auto. apply kget_put_other. intros ->. apply Hn; left; auto.
+Qed.
+
+Lemma conn_error_fail_keys st failed : c_conn_error (fail_keys st failed) = c_conn_error st.
+Proof.
+  revert st. induction failed as [|f failed IH]; intros st; cbn [fail_keys fold_left]; auto.
+  change (c_conn_error (fail_keys (match kget st f with Some c => put st f (failed_promise c) | None => st end) failed) = c_conn_error st).
+  rewrite IH. destruct (kget st f); reflexivity.
+Qed.
+
 (* a connection error (the peer's GOAWAY with its code and debug data, our own GOAWAY, an I/O error) reaches every
-   linked record: the state machine's handle_error, that stream's queue discarded *)
-Theorem conn_error_reaches_handles st e st' outs k r :
-  step st (LHandleError e) = Ok st' outs -> kget st k = Some r -> is_linked st k = true ->
-  no_push (linked_queues st) = true ->
+   linked record: the state machine's handle_error, that stream's queue discarded - except the promised records that
+   are failed together with a PUSH_PROMISE dropped from a parent's queue (`failed`, repair cc6ac6c) *)
+Theorem conn_error_reaches_handles st e failed st' outs k r :
+  step st (LHandleError e failed) = Ok st' outs -> kget st k = Some r -> is_linked st k = true ->
+  ~ In k failed ->
   let s' := fst (handle_error e (s_state r)) in
   (exists r', kget st' k = Some r' /\ s_state r' = s' /\ s_q r' = [] /\ s_infl r' = None) /\
   c_conn_error st' = Some e /\
   step st' (LPollRecv k) = Ok st' [OSurface (s_id r) (ensure_recv_open s')] /\
   (forall m, step st' (LPollReset k m) = Ok st' [OSurface (s_id r) (ensure_reason m s')]).
 Proof.
-  intros Hs Hk Hl Hnp. cbn [step] in Hs. unfold step_handle_error in Hs. use_res1 Hs. cbn zeta.
-  rewrite fail_promised_no_push by auto.
-  assert (Hg : kget (with_conn_error (with_slab st (map_linked st (fun _ r0 => fail_rec e r0))) (Some e)) k
+  intros Hs Hk Hl Hnp. cbn [step] in Hs. unfold step_handle_error in Hs.
+  destruct (negb (failed_ok st failed)); [discriminate|]. use_res1 Hs. cbn zeta.
+  assert (Hg : kget (fail_keys (with_conn_error (with_slab st (map_linked st (fun _ r0 => fail_rec e r0))) (Some e)) failed) k
                = Some (fail_rec e r)).
-  { unfold kget. cbn [c_slab with_conn_error with_slab]. rewrite (map_linked_get st _ k r Hk), Hl. reflexivity. }
-  split; [eexists; split; [exact Hg|]; cbn; auto|]. split; [reflexivity|].
+  { rewrite fail_keys_other by auto.
+    unfold kget. cbn [c_slab with_conn_error with_slab]. rewrite (map_linked_get st _ k r Hk), Hl. reflexivity. }
+  split; [eexists; split; [exact Hg|]; cbn; auto|]. split; [rewrite conn_error_fail_keys; reflexivity|].
   split; [cbn [step]; unfold step_poll_recv; rewrite Hg; reflexivity|].
   intros m. cbn [step]. unfold step_poll_reset. rewrite Hg. reflexivity.
 Qed.
